@@ -103,7 +103,8 @@ class C07(core.Check):
             # or the last reconfiguration step was itself a reindex(...)
             synced = (not edits and not reconf) or (bool(reconf) and reconf[-1][0] == 'reindex')
             final = (not synced) or rng.random() < 0.4
-            cases.append(dict(flags=flags, attr_indexes=attrs, first=first, toks=toks, edits=edits, reconf=reconf, final=final, queries=queries))
+            cases.append(dict(flags=flags, attr_indexes=attrs, first=first, toks=toks, edits=edits, reconf=reconf, final=final, queries=queries,
+                              via=[None, None, 'ctor', 'file'][i % 4]))
         # directed: an attribute index that is added, removed, added again ... and then searched on that very attribute, with values
         # that occur in the document
         nd = 24 if self.tier == 'quick' else 300
@@ -164,21 +165,47 @@ class C07(core.Check):
     def _history(self, case, indexed=True, recording=False):
         import AdvancedHTMLParser as A
         f = case['flags']
-        if indexed:
-            cls = pc.rec_class('indexed') if recording else A.IndexedAdvancedHTMLParser
-            p = cls(indexIDs=f[0], indexNames=f[1], indexClassNames=f[2], indexTagNames=f[3])
-            for a in case['attr_indexes']:
-                p.addIndexOnAttribute(a)
-        else:
-            p = A.AdvancedHTMLParser()
-        rec = None
-        if case.get('first'):
-            p.parseStr(c02.render(case['first'], None))
         html = c02.render(case['toks'], None)
-        if recording:
-            rec = pc.parse_recorded(p, html)
-        else:
-            p.parseStr(html)
+        via_file = bool(case.get('via')) and not recording and not case.get('first')
+        path = None
+        if via_file:
+            # the document reaches the parser through the constructor's filename argument / parseFile instead of parseStr
+            import os
+            import tempfile
+            fd, path = tempfile.mkstemp(suffix='.html', dir=str(core.BUILD))
+            with os.fdopen(fd, 'wb') as fh:
+                fh.write(html.encode('utf-8'))
+        try:
+            if indexed:
+                cls = pc.rec_class('indexed') if recording else A.IndexedAdvancedHTMLParser
+                if via_file and case['via'] == 'ctor' and not case['attr_indexes']:
+                    p = cls(path, indexIDs=f[0], indexNames=f[1], indexClassNames=f[2], indexTagNames=f[3])
+                    path_done = True
+                else:
+                    p = cls(indexIDs=f[0], indexNames=f[1], indexClassNames=f[2], indexTagNames=f[3])
+                    path_done = False
+                for a in case['attr_indexes']:
+                    p.addIndexOnAttribute(a)
+            else:
+                p = A.AdvancedHTMLParser()
+                path_done = False
+            rec = None
+            if case.get('first'):
+                p.parseStr(c02.render(case['first'], None))
+            if recording:
+                rec = pc.parse_recorded(p, html)
+            elif via_file:
+                if not path_done:
+                    p.parseFile(path)
+            else:
+                p.parseStr(html)
+        finally:
+            if path:
+                import os
+                try:
+                    os.unlink(path)
+                except OSError:
+                    pass
         applied = []
         for e in case['edits']:
             els = pc.preorder(p.getRoot())
